@@ -299,7 +299,11 @@ theorem visit_refs (cfg : Cfg) (env : Env) : ∀ (t : RTy) (T : Ts) (f : Nat), t
       cases hXs : nameTyBL cfg.limit (nameN env) args with
       | none => simp [hXs] at hT
       | some Xs =>
-        simp only [hXs, Option.bind_some, nameN, hfind, Option.map_some, Option.some.injEq] at hT
+        simp only [hXs, Option.bind_some, nameN, hfind] at hT
+        have hT : Ts.ref (Derive.tsName it) Xs = T := by
+          split at hT
+          · simpa using hT
+          · cases hT
         subst hT
         cases f with
         | zero => simp [depthR] at hd
